@@ -1013,6 +1013,7 @@ def instruction(ctx):
         operands.append(first_operand)
 
         ctx_before_comma = ctx.save()
+        ctx_before_comma.skip_whitespace()
         while comma(ctx, maybe=True):
             ctx_after_comma = ctx.save()
             ctx.skip_whitespace()
@@ -1025,6 +1026,7 @@ def instruction(ctx):
             ))
             operands.append(oper)
             ctx_before_comma = ctx.save()
+            ctx_before_comma.skip_whitespace()
 
         ctx_opening_bracket = ctx.save()
         ctx_opening_bracket.skip_whitespace()
